@@ -582,64 +582,80 @@ var c04Bodies = []string{
 	`{"A":3,"B":4}`, `{"A":1099511627776,"B":2}`, `{"A":"twelve","B":2}`, `{"A":6,"B":7`, ``, `[1,2]`, `{"A":5,"B":5}`, `{"A":2,"B":3.5}`, `"x"`, `{"A":-4,"B":2,"C":9}`, `{"A":7,"B":true}`, `{"A":9,"B":9}`,
 }
 
-func c04Undecodable(x *X) {
-	shape := []string{"Mul", "MulCtx", "MulOut"}[x.Choose(3)]
-	mode := x.Choose(4)
-	rot := x.Choose(len(c04Bodies))
-	so := srvOpts{bufSize: 64, codec: func() rpc.Codec { return rpc.NewJSONCodec() }}
-	switch mode {
-	case 1:
-		so.pipelining = true
-	case 2:
-		so.directIO = true
-	case 3:
-		so.shared = true
-	}
-	w := newWorld()
-	calc := &Calc{}
-	srv := newServer(w, so)
-	srv.Register(calc)
-	cl, sv := NewPipe()
-	serveCodec(srv, sv, so)
-	conn := newConn(cl, "", 64, nil) // BYTES on the client side: the body is the text itself
-	out := ""
-	for i := range c04Bodies {
-		body := c04Bodies[(i+rot)%len(c04Bodies)]
-		var ref Req
-		decodes := rpc.NewJSONCodec().Unmarshal([]byte(body), &ref) == nil
-		args := []byte(body)
-		var reply []byte
-		before := len(calc.runs)
-		var err error
-		returned := false
-		vs.GoNamed(fmt.Sprintf("caller%d", i), func() {
-			err = conn.Call("Calc."+shape, &args, &reply)
-			returned = true
-		})
-		vs.Quiesce()
-		ran := calc.runs[before:]
-		switch {
-		case !returned:
-			x.Fail("C04/call-hangs/undecodable", "the call with the body %q did not return", body)
-		case !decodes && len(ran) > 0:
-			x.Fail("C04/handler-ran-for-undecodable-request", "the request body %q cannot be decoded into the handler's parameter, and handler %v ran (shape %s, mode %d); the caller got err=%v reply=%q", body, ran, shape, mode, err, reply)
-		case !decodes && err == nil:
-			x.Fail("C04/undecodable-request-succeeds", "the request body %q cannot be decoded and the call returned nil with the reply %q", body, reply)
-		case decodes && len(ran) != 1:
-			x.Fail(fmt.Sprintf("C04/executions=%d/decodable-among-undecodable", len(ran)), "the request body %q ran %v", body, ran)
-		case decodes && ran[0] != fmt.Sprintf("%s(%d,%d)", shape, ref.A, ref.B):
-			x.Fail("C04/arguments-differ/decodable-among-undecodable", "the request body %q ran %s", body, ran[0])
-		case decodes && (err != nil || string(reply) != fmt.Sprintf(`{"Pro":%d}`, ref.A*ref.B)):
-			x.Fail("C04/reply-differs/decodable-among-undecodable", "the request body %q: err=%v reply=%q", body, err, reply)
+func c04Undecodable(x *X) { c04UndecodableP("C04")(x) }
+
+func c04UndecodableP(kp string) func(x *X) {
+	return func(x *X) {
+		shape := []string{"Mul", "MulCtx", "MulOut"}[x.Choose(3)]
+		mode := x.Choose(4)
+		rot := x.Choose(len(c04Bodies))
+		so := srvOpts{bufSize: 64, codec: func() rpc.Codec { return rpc.NewJSONCodec() }}
+		switch mode {
+		case 1:
+			so.pipelining = true
+		case 2:
+			so.directIO = true
+		case 3:
+			so.shared = true
 		}
-		out += fmt.Sprintf(" %v/%d/%v", decodes, len(ran), err == nil)
+		w := newWorld()
+		calc := &Calc{}
+		srv := newServer(w, so)
+		srv.Register(calc)
+		cl, sv := NewPipe()
+		serveCodec(srv, sv, so)
+		conn := newConn(cl, "", 64, nil) // BYTES on the client side: the body is the text itself
+		out := ""
+		for i := range c04Bodies {
+			body := c04Bodies[(i+rot)%len(c04Bodies)]
+			var ref Req
+			decodes := rpc.NewJSONCodec().Unmarshal([]byte(body), &ref) == nil
+			args := []byte(body)
+			var reply []byte
+			before := len(calc.runs)
+			var err error
+			returned := false
+			vs.GoNamed(fmt.Sprintf("caller%d", i), func() {
+				err = conn.Call("Calc."+shape, &args, &reply)
+				returned = true
+			})
+			vs.Quiesce()
+			ran := calc.runs[before:]
+			switch {
+			case !returned:
+				x.Fail(kp+"/call-hangs/undecodable", "the call with the body %q did not return", body)
+			case !decodes && len(ran) > 0:
+				x.Fail(kp+"/handler-ran-for-undecodable-request", "the request body %q cannot be decoded into the handler's parameter, and handler %v ran (shape %s, mode %d); the caller got err=%v reply=%q", body, ran, shape, mode, err, reply)
+			case !decodes && err == nil:
+				x.Fail(kp+"/undecodable-request-succeeds", "the request body %q cannot be decoded and the call returned nil with the reply %q", body, reply)
+			case decodes && len(ran) != 1:
+				x.Fail(fmt.Sprintf("%s/executions=%d/decodable-among-undecodable", kp, len(ran)), "the request body %q ran %v", body, ran)
+			case decodes && ran[0] != fmt.Sprintf("%s(%d,%d)", shape, ref.A, ref.B):
+				x.Fail(kp+"/arguments-differ/decodable-among-undecodable", "the request body %q ran %s", body, ran[0])
+			case decodes && (err != nil || string(reply) != fmt.Sprintf(`{"Pro":%d}`, ref.A*ref.B)):
+				x.Fail(kp+"/reply-differs/decodable-among-undecodable", "the request body %q: err=%v reply=%q", body, err, reply)
+			}
+			out += fmt.Sprintf(" %v/%d/%v", decodes, len(ran), err == nil)
+		}
+		// a second connection of another client, with the JSON codec on both ends: ordinary calls after all that
+		cl2, sv2 := NewPipe()
+		serveCodec(srv, sv2, so)
+		conn2 := newConn(cl2, "", 64, so.codec)
+		for i := 0; i < 3; i++ {
+			req, res := Req{A: int32(3 + i), B: 5}, Res{}
+			if err := conn2.Call("Arith.Mul", &req, &res); err != nil || res.Pro != req.A*req.B {
+				x.Fail(kp+"/reply-differs/other-connection-after-undecodable", "after undecodable bodies on another connection, an ordinary JSON call %d on a second connection returned err=%v product=%d", i, err, res.Pro)
+			}
+		}
+		x.Outcome("%s mode=%d rot=%d%s", shape, mode, rot, out)
+		conn.Close()
+		conn2.Close()
+		vs.Quiesce()
 	}
-	x.Outcome("%s mode=%d rot=%d%s", shape, mode, rot, out)
-	conn.Close()
-	vs.Quiesce()
 }
 
 func init() {
+	register(&Scenario{Prop: "C12", Name: "c12/undecodable-json-bodies-then-ordinary-calls", Quick: []Bound{{0, 0}}, Thorough: []Bound{{1, 0}}, Body: c04UndecodableP("C12"), BudgetQ: 15, BudgetT: 100, MinHB: 1})
 	register(&Scenario{Prop: "C04", Name: "c04/undecodable-requests", Quick: []Bound{{0, 0}}, Thorough: []Bound{{1, 0}}, Body: c04Undecodable, BudgetQ: 15, BudgetT: 100, MinHB: 1})
 }
 
@@ -739,4 +755,56 @@ func c04Reregister(x *X) {
 
 func init() {
 	register(&Scenario{Prop: "C04", Name: "c04/service-registered-again", Quick: []Bound{{0, 0}, {1, 0}}, Thorough: []Bound{{2, 0}}, Body: c04Reregister, BudgetQ: 10})
+}
+
+// poll mode, one connection, a burst of several hundred small asynchronous requests that reach the server
+// in one piece (one read(2) takes them all into the messages' user-space buffer, the poller sees an empty
+// socket afterwards) and no traffic after it: every request is executed once and answered once.
+func c04PollBurst(x *X) {
+	n := []int{100, 600, 1100}[x.Choose(3)]
+	workers := 1 + x.Choose(2)
+	nf := newNetFixture(srvOpts{bufSize: 64}, cliOpts{bufSize: 64}, true, workers)
+	done := make(chan *rpc.Call, n)
+	calls := make([]*ucall, n)
+	for i := range calls {
+		c := newUcall(byte(1+i%200), 0, 4+i%12, formGo)
+		c.args[1] = 0
+		calls[i] = c
+		c.call = nf.conn.Go(c.method, &c.args, &c.reply, done)
+	}
+	vs.Quiesce()
+	got := map[*rpc.Call]int{}
+	for len(done) > 0 {
+		got[<-done]++
+	}
+	missing, first := 0, -1
+	for i, c := range calls {
+		switch k := got[c.call]; {
+		case k == 0:
+			if missing++; first < 0 {
+				first = i
+			}
+		case k > 1:
+			x.Fail("C04/responses=2/poll-burst", "request %d of a burst of %d was answered %d times", i, n, k)
+		case c.call.Error != nil || !eqBytes(c.reply, c.want()):
+			x.Fail("C04/reply-differs/poll-burst", "request %d of a burst of %d: err=%v", i, n, c.call.Error)
+		}
+	}
+	total := 0
+	for _, k := range nf.w.execs {
+		total += k
+	}
+	if missing > 0 {
+		x.Fail("C04/responses=0/poll-burst", "%d of %d requests sent in one burst on a live connection (poll mode, %d workers) were never answered, the first one is number %d; %d were executed", missing, n, workers, first, total)
+	} else if total != n {
+		x.Fail("C04/executions/poll-burst", "%d requests were sent, %d handler executions", n, total)
+	}
+	x.Outcome("n=%d workers=%d answered=%d executed=%d", n, workers, n-missing, total)
+	nf.conn.Close()
+	nf.srv.Close()
+	vs.Quiesce()
+}
+
+func init() {
+	register(&Scenario{Prop: "C04", Name: "c04/poll-burst", Quick: []Bound{{0, 0}}, Thorough: []Bound{{0, 0}}, Body: c04PollBurst, MaxSteps: 3000000, BudgetQ: 60, BudgetT: 200})
 }
